@@ -7,6 +7,7 @@ import (
 	"fmt"
 	"io"
 	"net/http"
+	"net/url"
 	"strings"
 
 	"github.com/getkin/kin-openapi/openapi3"
@@ -158,6 +159,27 @@ func c19Judge(r *core.Run, s *openapi3.Schema, v any, order int, filter bool) (o
 	doc.Paths.Set("/t", pi)
 	route := &routers.Route{Spec: doc, Path: "/t", PathItem: pi, Method: "POST", Operation: op}
 	body, _ := json.Marshal(v)
+	// the same schema as a parameter (defined by content, so that any JSON value can be sent): the third place a value is validated
+	qop := &openapi3.Operation{
+		Parameters: openapi3.Parameters{&openapi3.ParameterRef{Value: &openapi3.Parameter{Name: "p", In: "query", Content: openapi3.NewContentWithJSONSchemaRef(&openapi3.SchemaRef{Value: s})}}},
+		Responses:  openapi3.NewResponses(),
+	}
+	qpi := &openapi3.PathItem{Get: qop}
+	doc.Paths.Set("/q", qpi)
+	qroute := &routers.Route{Spec: doc, Path: "/q", PathItem: qpi, Method: "GET", Operation: qop}
+	// reasonOnly: with the reason-only customiser the whole message is assembled from reasons, so it must be clean even
+	// with schema error details enabled (the default), where the standard rendering quotes the value
+	reasonOnly := func(mode string, call func() error) {
+		openapi3.SchemaErrorDetailsDisabled = false
+		r.Exec(order)
+		err := call()
+		openapi3.SchemaErrorDetailsDisabled = true
+		if err != nil {
+			if m := containsMarker(err.Error()); m != "" {
+				out = append(out, c19Finding{"message-assembled-from-reasons-leaks-value", map[string]any{"mode": mode, "error": err.Error()}})
+			}
+		}
+	}
 	for _, custom := range []bool{false, true} {
 		for _, multi := range []bool{false, true} {
 			opts := &openapi3filter.Options{MultiError: multi}
@@ -181,6 +203,35 @@ func c19Judge(r *core.Run, s *openapi3.Schema, v any, order int, filter bool) (o
 			mode = fmt.Sprintf("ValidateResponse custom=%v multi=%v", custom, multi)
 			if err != nil {
 				sites(mode, err)
+			}
+			newQ := func() *openapi3filter.RequestValidationInput {
+				qreq, _ := http.NewRequest("GET", "http://h.example/q?p="+url.QueryEscape(string(body)), nil)
+				return &openapi3filter.RequestValidationInput{Request: qreq, Route: qroute, Options: opts}
+			}
+			if v != nil {
+				r.Exec(order)
+				err = openapi3filter.ValidateRequest(context.Background(), newQ())
+				mode = fmt.Sprintf("ValidateRequest(parameter) custom=%v multi=%v", custom, multi)
+				if err == nil {
+					out = append(out, c19Finding{"filter-verdict", map[string]any{"mode": mode, "note": "standalone rejects, parameter validation accepts"}})
+				} else {
+					sites(mode, err)
+				}
+			}
+			if custom {
+				reasonOnly(fmt.Sprintf("ValidateRequest(body, details enabled) custom=true multi=%v", multi), func() error {
+					req, _ := http.NewRequest("POST", "http://h.example/t", bytes.NewReader(body))
+					req.Header.Set("Content-Type", "application/json")
+					return openapi3filter.ValidateRequest(context.Background(), &openapi3filter.RequestValidationInput{Request: req, Route: route, Options: opts})
+				})
+				reasonOnly(fmt.Sprintf("ValidateResponse(details enabled) custom=true multi=%v", multi), func() error {
+					return openapi3filter.ValidateResponse(context.Background(), &openapi3filter.ResponseValidationInput{RequestValidationInput: in, Status: 200, Header: http.Header{"Content-Type": {"application/json"}}, Body: io.NopCloser(bytes.NewReader(body)), Options: opts})
+				})
+				if v != nil {
+					reasonOnly(fmt.Sprintf("ValidateRequest(parameter, details enabled) custom=true multi=%v", multi), func() error {
+						return openapi3filter.ValidateRequest(context.Background(), newQ())
+					})
+				}
 			}
 		}
 	}
